@@ -161,5 +161,5 @@ func H04b_connect_clientid() {
 	// the same identifier is accepted by the setter, and the message built from it encodes to the same bytes
 	m2 := NewConnectMessage()
 	vrtAssert("C04.setter_accepts_what_decode_accepts", m2.SetClientID(id) == nil)
-	vrtReach("C04.clientid")
+	vrtReach("C04.large")
 }
